@@ -585,8 +585,8 @@ def check_c10(run):
     fams = [
         CodecFamily("sets", "sets", invariants=["TablesMatchStandard"]),
         CodecFamily("derive", "derive", depth=2 if q else 3, derive_bits=bits if not q else bits[:4], invariants=["NamedUntouched"], properties=["CopyOnDerive"]),
-        CodecFamily("codec", "codec", alphabet=alphabet, maxlen=3 if q else 4, codec_sets=sets, invariants=["CodecLaws"]),
-        CodecFamily("codec_pct", "codec", alphabet=[37, 50, 53, 0x42, 0x62, 0x67], maxlen=5 if q else 7, codec_sets=["SetPath", "SetAdd(SetPath, {37})", "SetC0"], invariants=["CodecLaws"]),
+        CodecFamily("codec", "codec", alphabet=alphabet, maxlen=3 if q else 4, codec_sets=sets, invariants=["CodecLaws", "SinglePctNeutral"]),
+        CodecFamily("codec_pct", "codec", alphabet=[37, 50, 53, 0x42, 0x67, U2], maxlen=5 if q else 7, codec_sets=["SetPath", "SetAdd(SetPath, {37})", "SetC0"], invariants=["CodecLaws", "SinglePctNeutral"]),
     ]
     for fam in fams:
         mod = fam.write(run.scratch)
@@ -834,6 +834,8 @@ def opt_families(run):
         Family("optquery", "&=a+'\"|~%b", 2 if q else 4, prefixes=["http://h/?", "x://h/?", "http://h/?b=2&a=1&"], suffixes=["", "#f|~\""], invariants=inv),
         Family("optraw", [0x110080, 0x1100FF, ord(L), ord("/"), ord("%"), ord(".")], 3 if q else 4, prefixes=["http://h/", "http://", "x:"], invariants=["PtrOk"]),
         Family("optnoscheme", L + "./:@?#", 3 if q else 4, prefixes=["", "h", "//"], invariants=inv),
+        # long queries with duplicate names (sort stability only shows beyond a dozen pairs)
+        Family("optlongquery", "&" + L, 1, frames=[("http://h/p?" + "&".join("%s=%d" % ("cba"[(i * 7 + i // 3) % 3], i) for i in range(n_)), "#f") for n_ in (13, 16, 23, 30)], invariants=["PtrOk"]),
         # every credential shape (username-only, password-only, empty, with ':' inside) and every port shape
         Family("optcreds", L + "@:", 4 if q else 5, prefixes=["http://", "x://", "ws://"], suffixes=["h/", "h:80/#f", "h:8/?b=2&a=1#"][:2 if q else 3], invariants=inv),
     ]
